@@ -641,6 +641,11 @@ BUILTIN_CALLS = [
     "%(x)s sort_on (\\t -> 0)", "%(x)s !? 0", "%(x)s !% 0", "vector(%(x)s)", "list(%(x)s)", "dict(%(x)s)", "str(%(x)s)", "bytes(%(x)s)",
     "stream(%(x)s)", "repr(%(x)s)", "len(%(x)s)", "shuffle(%(x)s)", "%(x)s prepend 1", "%(x)s ||+ {0: 1}", "only(%(x)s)",
     "(\\t -> (t[0] = 99; t))(%(x)s)", "(\\t -> (t append= 5; t))(%(x)s)", "(\\t -> (pop t))(%(x)s)", "(\\t -> (t = 0))(%(x)s)",
+    # the value travels through a loop variable, a pattern, a thrown value, a local copy, a section: none of them may write back
+    "(for (t <- %(x)s) (t = 0))", "(for (i, t <<- %(x)s) (t = i))", "(for (t <- [%(x)s]) (t[0] = 99))", "(for (t <- [%(x)s, %(x)s]) yield (t append= 5; t))",
+    "(switch (%(x)s) case t -> (t[0] = 99; t))", "(try (throw %(x)s) catch t -> (t[0] = 99; t))", "(\\ -> (t := %(x)s; t[0] = 99; t append= 1; t))()",
+    "(\\t -> (every t[:1] = 7; t))(%(x)s)", "(\\t -> (t .= reverse; t))(%(x)s)", "(\\t -> (swap t[0], t[-1]; t))(%(x)s)", "(\\...t -> (t[0][0] = 99; t))(%(x)s, %(x)s)",
+    "(\\t, u = %(x)s -> (u[0] = 99; u))(1)", "[%(x)s, %(x)s] map (\\t -> (t[0] = 99; t))", "(_ append 1)(%(x)s)", "%(x)s then (\\t -> (remove t[0]; t))",
 ]
 
 KINDS = ["decl", "alias", "alias", "setidx", "setidx", "setidx", "opassign", "opassign", "defop", "every", "everyvars",
